@@ -427,7 +427,15 @@ pub enum Iso {
 }
 
 fn self_exe() -> PathBuf {
-    std::env::current_exe().expect("current_exe")
+    // /proc/self/exe names the running image even if the file on disk has been
+    // replaced by a rebuild in the meantime (current_exe() would then return a
+    // path ending in " (deleted)").
+    let p = PathBuf::from("/proc/self/exe");
+    if p.exists() {
+        p
+    } else {
+        std::env::current_exe().expect("current_exe")
+    }
 }
 
 pub fn scratch_dir() -> PathBuf {
